@@ -111,8 +111,10 @@ Definition LO := lower_with [].
 Definition UP := upper_with [].
 Definition PT := sk_parse_tree LO.
 
-Notation tl_get sch d := (treelist_get sktree LO UP PT sk_set_label sk_add_comments sch d).
-Notation tr_get sch c k d := (tree_get sktree LO UP PT sk_set_label sk_add_comments sch c k d).
+Notation tl_get sch d := (treelist_get sktree LO UP PT sk_set_label sk_add_comments false sch d).
+Notation tl_get_repaired sch d := (treelist_get sktree LO UP PT sk_set_label sk_add_comments true sch d).
+Notation tr_get sch c k d := (tree_get sktree LO UP PT sk_set_label sk_add_comments false false sch c k d).
+Notation tr_get_repaired sch c k d := (tree_get sktree LO UP PT sk_set_label sk_add_comments true true sch c k d).
 Notation yff sch d := (yield_from_files sktree LO UP PT sk_set_label sk_add_comments sch [] d).
 Notation ds_get sch a d := (dataset_get sktree LO UP PT sk_set_label sk_add_comments sch a d).
 
@@ -189,3 +191,9 @@ Proof.
   destruct attached_not_conversely_l as [d [A B]]. exists d. split; [|exact B].
   apply no_sets_b_ok in A. unfold NoSets in A. rewrite Forall_forall in A. exact A.
 Qed.
+
+(* in the repaired forms of the two sites the counter-examples disappear *)
+Example repaired_forms :
+  res_len (tl_get_repaired Nexus d_two_taxa) = Some 2%nat
+  /\ (match tr_get_repaired Nexus None None d_two_trees with Ok u => sk_label u | _ => None end) = Some (Some (q "foo")).
+Proof. vm_compute. auto. Qed.
